@@ -11,6 +11,7 @@ from ..core import Info, Part, Ctx, Violation, HarnessError, require, guarded
 ID = "C11"
 TITLE = "Port-ID and minor-version consistency rules hold for every set of definitions"
 RULE = (
+    "(Sections are structures or unions, with or without doc comments; names may lie in a nested namespace called like a service - vendor/A/Request.1.0.dsdl next to vendor/A.1.0.dsdl.)  "
     "Cases are sets of 2..8 individually valid definitions over <= 3 names in a vendor root namespace: versions (major 0..2, minor 0..3), "
     "kind (message / service), fixed port-ID absent or one of two values per kind (regulated ones, or 0 and another unregulated one with the allow flag), sealed vs delimited, two extents, for "
     "services independently for request and response; in a second part the (port-less, message) definitions live in a lookup namespace "
